@@ -58,6 +58,7 @@ type Entry struct {
 	Err       error // what Tell returned
 	Delivered int
 	ToldStep  int
+	CallAt    time.Duration // simulated time at which Tell was called
 }
 
 type Ledger struct {
@@ -343,6 +344,7 @@ func (w *World) TellEntry(ctx context.Context, ep Endpoint, e *Entry) *Entry {
 	}
 	w.opBegin()
 	zsimrt.Yield("harness/before-tell")
+	e.CallAt = w.Sim.Now()
 	e.Err = ep.Tell(ctx, to, vec)
 	e.Told = true
 	e.ToldStep = w.step()
